@@ -10,6 +10,7 @@ from .protocolentities import ResultRequestUploadIqProtocolEntity
 from .protocolentities import MediaMessageProtocolEntity
 from .protocolentities import ExtendedTextMediaMessageProtocolEntity
 from yowsup.layers.protocol_iq.protocolentities import IqProtocolEntity, ErrorIqProtocolEntity
+from yowsup.layers.protocol_messages.protocolentities.attributes.converter import AttributesConverter
 import logging
 
 logger = logging.getLogger(__name__)
@@ -33,6 +34,13 @@ class YowMediaProtocolLayer(YowProtocolLayer):
     def recvMessageStanza(self, node):
         if node.getAttributeValue("type") == "media":
             mediaNode = node.getChild("proto")
+            message = AttributesConverter.get().protobytes_to_message(mediaNode.getData())
+            if message.sender_key_distribution_message and not any((
+                    message.image, message.contact, message.location, message.extended_text,
+                    message.document, message.audio, message.video, message.sticker
+            )):
+                # a sender key distributed ahead of a group media message carries the media type but no media
+                return
             if mediaNode.getAttributeValue("mediatype") == "image":
                 entity = ImageDownloadableMediaMessageProtocolEntity.fromProtocolTreeNode(node)
                 self.toUpper(entity)
